@@ -851,6 +851,258 @@ pub fn ring_faults(r: &mut Rng, w: &mut WorldCfg, o: &mut OracleCfg, tier: Tier)
     faults
 }
 
+
+// ------------------------------------------------------------------------------------------
+// engine *adv*
+
+pub struct AdvOpts {
+    /// Mostly protocol-conforming adversary (deep protocol states, few collisions).
+    pub polite: bool,
+    /// Attach applications to the station (C05): DP master with reference slaves, live list, scanner.
+    pub apps: bool,
+    /// Everything is allowed: clock jumps backwards, misconfigured HSA, stale RX, user resets.
+    pub hostile: bool,
+    pub log_all: bool,
+}
+
+pub fn adv_world(r: &mut Rng, tier: Tier, o: &AdvOpts) -> (WorldCfg, OracleCfg, Vec<Fault>) {
+    let baud = pick_baud(r);
+    let slot_bits = pick_slot_bits(r, baud);
+    let tslot_us = bit_us(baud, u64::from(slot_bits)).max(1);
+    let hsa = match r.below(4) {
+        0 => 126,
+        1 => r.range(2, 8) as u8,
+        _ => r.range(3, if tier == Tier::Quick { 24 } else { 126 }) as u8,
+    };
+    let ts = match r.below(5) {
+        0 => 0,
+        1 => hsa - 1,
+        _ => r.below(u64::from(hsa)) as u8,
+    };
+    // personas of the adversary: neighbours, strangers, invalid addresses, the station's own
+    let mut addrs: Vec<u8> = Vec::new();
+    let add = |v: &mut Vec<u8>, a: u8| {
+        if !v.contains(&a) {
+            v.push(a);
+        }
+    };
+    let h = u64::from(hsa);
+    add(&mut addrs, ((u64::from(ts) + 1) % h) as u8);
+    add(&mut addrs, ((u64::from(ts) + h - 1) % h) as u8);
+    for _ in 0..r.range(0, 3) {
+        add(&mut addrs, r.below(h) as u8);
+    }
+    if r.chance(1, 4) {
+        add(&mut addrs, r.range(h.min(125), 127) as u8);
+    }
+    if r.chance(1, 8) {
+        add(&mut addrs, ts);
+    }
+    if !o.hostile {
+        addrs.retain(|a| *a != ts);
+    }
+    let p_cap = max_poll_period_us(baud, slot_bits, 0);
+    let p_max = match r.below(3) {
+        0 => p_cap,
+        _ => r.range((p_cap / 4).max(1), p_cap),
+    };
+    let mut apps: Vec<AppCfg> = Vec::new();
+    let mut slaves: Vec<SlaveCfg> = Vec::new();
+    let mut faults: Vec<Fault> = Vec::new();
+    let tsdr_cap = max_tsdr_cap(baud, slot_bits, 0);
+    let mut used = addrs.clone();
+    used.push(ts);
+    let end_slots = match tier {
+        Tier::Quick => r.range(300, 3000),
+        Tier::Thorough => r.range(300, 20_000),
+    };
+    let end_us = (8 + 2 * u64::from(ts)) * tslot_us + end_slots * tslot_us;
+    if o.apps {
+        let napps = r.weighted(&[2, 4, 3, 1]);
+        for _ in 0..napps {
+            match r.below(5) {
+                0 => apps.push(AppCfg::LiveList),
+                1 => apps.push(AppCfg::Scanner),
+                2 => apps.push(traffic_app(r, &used)),
+                _ => {
+                    // DP master with 0..3 peripherals
+                    let np = r.weighted(&[2, 3, 2, 1]);
+                    let mut pers = Vec::new();
+                    for _ in 0..np {
+                        let mut a = r.below(126) as u8;
+                        while used.contains(&a) {
+                            a = r.below(126) as u8;
+                        }
+                        used.push(a);
+                        let in_len = pick_len(r, false, 244);
+                        let out_len = pick_len(r, false, 244);
+                        let up = r.range(0, 12) as usize;
+                        let cl = r.range(1, 8) as usize;
+                        let config = r.bytes(cl);
+                        let ident = r.next_u64() as u16;
+                        let max_tsdr = r.range(11, u64::from(tsdr_cap)) as u16;
+                        pers.push(PeriphCfg {
+                            addr: a,
+                            ident,
+                            sync: r.chance(1, 4),
+                            freeze: r.chance(1, 4),
+                            groups: r.byte(),
+                            max_tsdr,
+                            fail_safe: r.chance(1, 2),
+                            user_prm: if r.chance(1, 10) { None } else { Some(r.bytes(up)) },
+                            config: if r.chance(1, 10) { None } else { Some(config.clone()) },
+                            in_len,
+                            out_len,
+                            diag_buf: *r.pick(&[0usize, 6, 16, 64, 244]),
+                        });
+                        if r.chance(4, 5) {
+                            slaves.push(SlaveCfg {
+                                addr: a,
+                                ident: if r.chance(1, 8) { ident.wrapping_add(1) } else { ident },
+                                dp: true,
+                                in_len,
+                                out_len,
+                                cfg: config,
+                                prm_len: None,
+                                min_tsdr: 11,
+                                max_tsdr,
+                                power: vec![(if r.chance(1, 3) { r.range(0, end_us / 2) } else { 0 }, true)],
+                                not_ready_n: r.below(3) as u8,
+                                dh_pm: if r.chance(1, 3) { r.range(5, 300) as u32 } else { 0 },
+                                ext_diag: if r.chance(1, 3) {
+                                    let n = r.range(1, 10) as usize;
+                                    r.bytes(n)
+                                } else {
+                                    vec![]
+                                },
+                                sc_for_empty: r.chance(1, 2),
+                                honour_watchdog: r.chance(1, 2),
+                            });
+                        }
+                    }
+                    apps.push(AppCfg::Dp(DpCfg {
+                        slots: if r.chance(1, 2) { None } else { Some(np + r.below(3) as usize) },
+                        reserved: 0,
+                        peripherals: pers,
+                        user: UserCfg {
+                            write_pm: *r.pick(&[0u32, 50, 300]),
+                            diag_pm: *r.pick(&[0u32, 10, 100]),
+                            reset_pm: if r.chance(1, 4) { 3 } else { 0 },
+                            reset_inflight_pm: 0,
+                            take_every: *r.pick(&[1u32, 1, 3, 50]),
+                            until_us: 0,
+                        },
+                        operate_at_us: if r.chance(1, 4) { r.range(1, end_us / 2) } else { 0 },
+                    }));
+                }
+            }
+        }
+        // Byzantine slaves
+        for _ in 0..r.range(0, 10) {
+            if slaves.is_empty() {
+                break;
+            }
+            let sl = r.below(slaves.len() as u64) as usize;
+            faults.push(Fault {
+                trig: Trigger::NthTx { n: r.range(0, 300) as u32, class: TxClass::DpRequest },
+                kind: FaultKind::SlaveByz { slave: sl, shape: byz_shape(r, ts), count: r.range(1, 3) as u8 },
+                delay_us: 0,
+            });
+        }
+        if r.chance(1, 2) {
+            let level = *r.pick(&[10u32, 50, 150]);
+            let t1 = r.range(0, end_us / 2);
+            faults.push(Fault {
+                trig: Trigger::At(t1),
+                delay_us: 0,
+                kind: FaultKind::Storm {
+                    until_us: t1 + r.range(1, end_us / 2),
+                    drop_pm: r.range(0, u64::from(level)) as u32,
+                    flip_pm: r.range(0, u64::from(level)) as u32,
+                    rxdrop_pm: r.range(0, u64::from(level)) as u32,
+                    trunc_pm: r.range(0, u64::from(level)) as u32,
+                    dup_pm: r.range(0, u64::from(level) / 2) as u32,
+                    seed: r.next_u64(),
+                },
+            });
+        }
+    }
+    if o.hostile {
+        for _ in 0..r.range(0, 4) {
+            let t = r.range(0, end_us);
+            let kind = match r.below(6) {
+                0 => FaultKind::ClockJump { station: 0, delta_us: -(r.range(1, 1000 * tslot_us) as i64) },
+                1 => FaultKind::ClockJump { station: 0, delta_us: r.range(1, 1000 * tslot_us) as i64 },
+                2 => FaultKind::Stall { station: 0, us: r.range(1, 100) * tslot_us },
+                3 => {
+                    faults.push(Fault { trig: Trigger::At(t + r.range(1, 500) * tslot_us), kind: FaultKind::GoOnline { station: 0 }, delay_us: 0 });
+                    FaultKind::GoOffline { station: 0 }
+                }
+                4 => {
+                    let nb = r.range(1, 20) as usize;
+                    FaultKind::Noise { bytes: r.bytes(nb) }
+                }
+                _ => FaultKind::Crash { station: 0, restart_after_us: Some(r.range(0, 50 * tslot_us)) },
+            };
+            faults.push(Fault { trig: Trigger::At(t), kind, delay_us: 0 });
+        }
+    }
+    let station = StationCfg {
+        addr: ts,
+        slot_bits,
+        // a misconfigured HSA at or below the own address is generated for C05 only
+        hsa: if o.hostile && r.chance(1, 20) { r.below(u64::from(ts) + 1) as u8 } else { hsa },
+        gap: r.range(1, if tier == Tier::Quick { 4 } else { 20 }) as u8,
+        ttr: match r.below(3) {
+            0 => 256,
+            1 => r.range(256, 20_000) as u32,
+            _ => u32::from(hsa) * 5000,
+        },
+        retry: r.range(1, 4) as u8,
+        min_tsdr: 11,
+        watchdog_ms: if r.chance(1, 3) { Some(r.range(10, 5000) as u32) } else { None },
+        p_min_us: if r.chance(1, 2) { p_max } else { r.range(1, p_max) },
+        p_max_us: p_max,
+        clock_off_us: if r.chance(1, 2) { 0 } else { r.range_i(if o.hostile { -1_000_000_000 } else { 0 }, 1_000_000_000) },
+        skew_ppm: 0,
+        plan: vec![(0, PlanOp::Online)],
+        single_poll_api: apps.len() == 1 && r.chance(1, 2),
+        apps,
+        tx_done: if o.hostile { r.pick(&[TxDoneCfg::Exact, TxDoneCfg::Exact, TxDoneCfg::Early]).clone() } else { TxDoneCfg::Exact },
+        rx_chunk_us: 0,
+        dup_poll_pm: if r.chance(1, 3) { r.range(1, 100) as u32 } else { 0 },
+        stale_rx: if o.hostile && r.chance(1, 6) {
+            let n = r.range(1, 12) as usize;
+            r.bytes(n)
+        } else {
+            vec![]
+        },
+    };
+    let adversary = AdvCfg {
+        addrs,
+        coop_pm: if o.polite { *r.pick(&[850u32, 950, 1000, 1000]) } else { *r.pick(&[300u32, 600, 800, 900, 950, 1000]) },
+        gap_bits: if o.polite { *r.pick(&[1000u32, 5000, 20000]) } else { *r.pick(&[60u32, 200, 1000, 5000]) },
+        until_us: end_us,
+        partner: r.chance(3, 4),
+        script: vec![],
+    };
+    let world = WorldCfg {
+        baud,
+        stations: vec![station],
+        slaves,
+        adversary: Some(adversary),
+        collision_garbles: r.chance(1, 2),
+        end_us,
+        max_polls: match tier {
+            Tier::Quick => 300_000,
+            Tier::Thorough => 3_000_000,
+        },
+        log_all: o.log_all,
+        fault_deadline_us: 0,
+    };
+    (world, OracleCfg::default(), faults)
+}
+
 pub fn generate(check: &str, tier: Tier, base_seed: u64, k: u64) -> Scenario {
     let seed = derive(base_seed, check, k);
     let mut r = Rng::derived(seed, "gen", 0);
@@ -896,6 +1148,88 @@ pub fn generate(check: &str, tier: Tier, base_seed: u64, k: u64) -> Scenario {
             };
             let (w, o) = ring_world(&mut r, tier, &o);
             (w, o, Vec::<Fault>::new())
+        }
+        "C11" => {
+            if r.chance(1, 3) {
+                // real rings with crashes: the retry / removal rules between real stations
+                let o = RingOpts {
+                    n_min: 3,
+                    n_max: 5,
+                    max_hsa: if tier == Tier::Quick { 24 } else { 126 },
+                    max_gap: 5,
+                    apps: false,
+                    responders: false,
+                    staged_joins: true,
+                    leaves: true,
+                    buggify: false,
+                    skew: false,
+                    extra_rotations: 40,
+                    ttr_cap_slots: 30,
+                    claim_race: false,
+                    nonneg_clock: false,
+                    many_apps: false,
+                };
+                let (mut w, o) = ring_world(&mut r, tier, &o);
+                let tslot_us = bit_us(w.baud, u64::from(w.stations[0].slot_bits)).max(1);
+                let mut f = Vec::new();
+                for _ in 0..r.range(1, 2) {
+                    // biased to the highest and the lowest address (wrap-around of the successor)
+                    let hi = (0..w.stations.len()).max_by_key(|i| w.stations[*i].addr).unwrap();
+                    let lo = (0..w.stations.len()).min_by_key(|i| w.stations[*i].addr).unwrap();
+                    let st = match r.below(4) {
+                        0 | 1 => hi,
+                        2 => lo,
+                        _ => r.below(w.stations.len() as u64) as usize,
+                    };
+                    let t = o.quiet_from_us + r.range(100, 2000) * tslot_us + r.below(tslot_us);
+                    f.push(Fault {
+                        trig: Trigger::At(t),
+                        kind: FaultKind::Crash { station: st, restart_after_us: if r.chance(1, 2) { None } else { Some(r.range(50, 500) * tslot_us) } },
+                        delay_us: 0,
+                    });
+                }
+                w.end_us = o.quiet_from_us + 6000 * tslot_us;
+                (w, o, f)
+            } else {
+                let polite = r.chance(1, 2);
+                adv_world(&mut r, tier, &AdvOpts { polite, apps: false, hostile: false, log_all: false })
+            }
+        }
+        "C12" => {
+            if r.chance(1, 2) {
+                let o = RingOpts {
+                    n_min: 1,
+                    n_max: 4,
+                    max_hsa: if tier == Tier::Quick { 24 } else { 126 },
+                    max_gap: if tier == Tier::Quick { 6 } else { 100 },
+                    apps: r.chance(1, 3),
+                    responders: true,
+                    staged_joins: true,
+                    leaves: true,
+                    buggify: false,
+                    skew: false,
+                    extra_rotations: 60,
+                    ttr_cap_slots: 30,
+                    claim_race: false,
+                    nonneg_clock: false,
+                    many_apps: false,
+                };
+                let (mut w, o) = ring_world(&mut r, tier, &o);
+                // slaves inside the GAPs that answer status polls without being masters
+                let hsa = w.stations[0].hsa;
+                let tsdr = max_tsdr_cap(w.baud, w.stations[0].slot_bits, 0);
+                let taken: Vec<u8> = w.stations.iter().map(|s| s.addr).chain(w.slaves.iter().map(|s| s.addr)).collect();
+                let base = r.below(u64::from(hsa)) as u8;
+                for k in 0..r.range(0, 6) as u8 {
+                    let a = (u16::from(base) + u16::from(k)) as u8 % hsa;
+                    if !taken.contains(&a) && !w.slaves.iter().any(|s| s.addr == a) {
+                        w.slaves.push(responder(a, &mut r, tsdr));
+                    }
+                }
+                (w, o, Vec::<Fault>::new())
+            } else {
+                adv_world(&mut r, tier, &AdvOpts { polite: true, apps: false, hostile: false, log_all: false })
+            }
         }
         "C06" => {
             let o = RingOpts {
